@@ -40,6 +40,15 @@ package data
 //@   ensures len(r) == x.len && forall(k, 0, x.len, r[k] == x.at(k))
 //@   assigns nothing
 
+//@ iface NewIndex(x, val) returns (r)
+//@   fresh r
+//@   ensures len(r) == x.rank && forall(k, 0, x.rank, r[k] == val)
+//@   assigns nothing
+
+//@ iface Shape(x) returns (s)
+//@   ensures len(s) == x.rank && forall(k, 0, x.rank, s[k] == x.dim(k))
+//@   assigns nothing
+
 //@ iface Maximum(x) returns (r)
 //@   ensures forall(k, 0, x.len, r >= x.at(k))
 //@   assigns nothing
